@@ -1,5 +1,6 @@
 import DilithiumVerif.Driver.Codec
 import DilithiumVerif.Impl.Api
+import DilithiumVerif.Driver.Forge
 /- Driver.Dispatch — maps a request line to the model function of the same Rust path. -/
 namespace DV.Drv
 open DV
@@ -309,6 +310,19 @@ def answerStructured (name : String) (args : List String) : Option String :=
   | [api, ty, fn] => do let p ← apiName api; answerApi p (ty ++ "::" ++ fn) args
   | _ => none
 
+/-- model-only requests: forgers and the C06 judge -/
+def answerModelOnly (name : String) (a : List String) : Option String :=
+  match name, a with
+  | "forge", [set, kind, sk, msg, maxiter] => do
+      let p ← paramsOf set; let sk ← B sk; let msg ← B msg; let n ← Nn maxiter
+      some (showChk (fun r => match r with
+        | none => "none"
+        | some (k, sg, zm) => toString k ++ " " ++ toString zm ++ " " ++ sB sg) (forge p kind sk msg n))
+  | "analyze", [set, sk, msg, sig] => do
+      let p ← paramsOf set; let sk ← B sk; let msg ← B msg; let sig ← B sig
+      some (showChk (fun (f : List String) => if f.isEmpty then "pass" else "fail:" ++ ",".intercalate f) (analyze p sk msg sig))
+  | _, _ => none
+
 def answer (toks : List String) : String :=
   let toks := toks.filter (· ≠ "")
   match toks with
@@ -317,6 +331,9 @@ def answer (toks : List String) : String :=
   | name :: args =>
     match answerScalar name args with
     | some s => s
-    | none => (answerStructured name args).getD "bad-request"
+    | none =>
+      match answerModelOnly name args with
+      | some s => s
+      | none => (answerStructured name args).getD "bad-request"
 
 end DV.Drv
